@@ -12,6 +12,8 @@
 (*   ref-resolver-signature  an offered parameter does not carry type / default / owner of Ref (a Conditional one  *)
 (*                         is accepted exactly where the transcribed algorithm predicts the documented Conditional) *)
 (*   ref-parser-names, ref-parser-signature   the same for the parser's arguments                                 *)
+(*   ref-deliver           a value parsed for an offered parameter and passed on by instantiate_classes / the call *)
+(*                         did not arrive at the declaration Ref binds that keyword in                             *)
 (*   alg                   the observation differs from the transcribed algorithm (drift when Ref agrees)          *)
 (* and <<"I", "obs", index, callable, deviation>> tells the harness which named deviation applies.                 *)
 EXTENDS Resolver, Json, IOUtils
@@ -56,6 +58,8 @@ Check(k) ==
            \/ \A j \in DOMAIN par : (par[j].d = "cond" /\ (par[j].n \in algCond \/ dev # "-"))
                  \/ (IF par[j].d = "dflt" THEN [o |-> par[j].o, n |-> par[j].n, t |-> par[j].t, d |-> "dflt"] \in ref   \* a default identifies its owner
                      ELSE RefHas(par[j].n, par[j].t, par[j].d))) \/ Say(k, "ref-parser-signature")
+     /\ (~call \/ ~ob.parsed \/ parNames # legal
+           \/ \A j \in DOMAIN ob.delivered : \E x \in ref : x.n = ob.delivered[j].n /\ x.o = ob.delivered[j].o) \/ Say(k, "ref-deliver")
 
 Inv == Check(i) \/ TRUE
 =============================================================================
